@@ -80,6 +80,8 @@ impl<'a> G<'a> {
         for _ in 0..extra { s.push(LETTERS[self.r.below(26) as usize] as char); }
         if self.f.wide && self.r.chance(1, 5) { let p = self.r.below(s.len() as u64 + 1) as usize; s.insert(p, *self.r.pick(&['一', '二', '語', '🎉'])); }
         if self.f.zero && self.r.chance(1, 8) { s.push('\u{301}'); }
+        // an emoji presentation sequence: one column plus none by its characters, two columns as a string
+        if self.f.wide && self.f.zero && self.r.chance(1, 25) { let p = self.r.below(s.len() as u64 + 1) as usize; if s.is_char_boundary(p) { s.insert_str(p, *self.r.pick(&["\u{263a}\u{fe0f}", "\u{2764}\u{fe0f}", "\u{263a}\u{fe0f}\u{263a}\u{fe0f}"])); } }
         // characters without any width: C0 / DEL control characters (dropped by the renderer)
         if self.f.zero && self.r.chance(1, 20) { let p = self.r.below(s.len() as u64 + 1) as usize; if s.is_char_boundary(p) { s.insert(p, *self.r.pick(&['\u{1}', '\u{1b}', '\u{7f}', '\u{8}'])); } }
         if s.is_empty() { s.push('x'); }
